@@ -12,7 +12,10 @@ Stages
            decided in the harness); BuildAutomaticUVMap: unit square, disjoint chart boxes, barycentric
            round trip through MapFn.
   mapfn    TLC (IslandGen) enumerates lattice layouts of UV islands; MapFn is queried on the half lattice
-           incl. gutters and TLC compares the squared distance of the point it used with the exact minimum.
+           incl. gutters and TLC compares the squared distance of the point it used with the exact minimum;
+           Bounds2D, Area3D and ToBounds of the same layouts are compared with their exact values.
+           StretchMinimizingParameterization on the discs of stage charts (boundary fixed, no flips);
+           ExtendBoundaryUVs (only tips of boundary triangles move, by at most maxDist, never towards degeneracy).
 """
 import json
 import os
@@ -23,7 +26,8 @@ from vlib import Infra
 CHARTS = "SPECIFICATION Spec\nCONSTANTS\n  Seed = \"%s\"\nINVARIANTS GrowingIsDisc ChartsAreDiscs Partition Complete\nCHECK_DEADLOCK FALSE\n"
 ISL = "SPECIFICATION Spec\nCONSTANTS\n  G = %d\n  K = %d\nCHECK_DEADLOCK FALSE\n"
 JUDGE = "SPECIFICATION Spec\nCHECK_DEADLOCK FALSE\n"
-CLAUSES = {"panic", "partition", "disc", "limit", "mean", "noflip", "boundary", "unit", "disjoint", "bary", "nearest"}
+CLAUSES = {"panic", "partition", "disc", "limit", "mean", "noflip", "boundary", "unit", "disjoint", "bary", "nearest",
+           "extend", "bounds2d", "area3d", "tobounds"}
 
 
 def judge(ctx, name, rpath, nrecords):
@@ -55,7 +59,8 @@ def run(ctx):
                 "discs and 5 fans, 5 atlases; every layout of 3 (4) islands on a 3x3 (4x4) lattice x ~250 queries")
     ctx.assumptions = ["Floater97 weighted-mean clause uses tolerance 1e-5 (the default BiCGSTAB solver is iterative)",
                        "atlas chart boxes are rounded outwards to 1e-6 units before TLC tests disjointness",
-                       "stretch minimisation is not covered"]
+                       "StretchMinimizingParameterization: boundary fixed and no flips only (its weights are re-estimated)",
+                       "ExtendBoundaryUVs: only tips of boundary triangles move, by at most maxDist, never towards degeneracy"]
     ctx.build_harness()
     for seed in ["tetra", "octa", "annulus"]:
         e = ctx.tlc("E-" + seed, "param/Charts", CHARTS % seed, workers=8, timeout=600)
@@ -76,6 +81,8 @@ def run(ctx):
     spath = os.path.join(ctx.dir, "stats-charts.json")
     ctx.drv(["c18-param", "kind=charts", "out=" + rpath, "stats=" + spath, "seed=%d" % ctx.seed], timeout=1200)
     st = json.load(open(spath))
+    if st.get("extend-moved", 0) == 0:
+        raise Infra("ExtendBoundaryUVs moved no vertex in any record: the extend clause would be vacuous")
     rej = judge(ctx, "charts", rpath, st["records"])
     ctx.stage("charts", kind="V", records=st["records"], rejected=rej)
 
